@@ -58,6 +58,8 @@ func NewDefaultExecutor(stdin io.Reader, stdout, stderr io.Writer) (*DefaultExec
 		return nil, err
 	}
 
+	verifApply(e.interp)
+
 	return e, nil
 }
 
